@@ -659,6 +659,13 @@ func RandKnotProgram(r *rand.Rand) ProgramV {
 				c.Body = append(c.Body, atom(fmt.Sprintf("p%d", r.Intn(k))))
 			}
 			if r.Intn(4) == 0 {
+				// the same predicate mentioned twice (one firing is then recorded twice), sometimes with a third atom
+				c.Body = []LitV{c.Body[0], c.Body[0]}
+				if r.Intn(3) == 0 {
+					c.Body = append(c.Body, atom(fmt.Sprintf("p%d", r.Intn(k))))
+				}
+			}
+			if r.Intn(4) == 0 {
 				c.Body = append(c.Body, atom("e0"))
 			}
 			rules = append(rules, c)
